@@ -20,6 +20,7 @@ import PoetryVerif.Proofs.EqHashMarker
 import PoetryVerif.Proofs.EqHashDep
 import PoetryVerif.Proofs.EqHashParse
 import PoetryVerif.Proofs.EqHashAlgOps
+import PoetryVerif.Proofs.EqHashUnionAllows
 import PoetryVerif.Proofs.VersionParse
 import PoetryVerif.Proofs.VRangeSpecSet
 import PoetryVerif.Proofs.VRangeTextU
@@ -160,10 +161,32 @@ example : let V := Version.mk' 0 [1, 0] none none none none
     (by simp) (by simp)
   exact ⟨RegB.of_check (by decide), h1.1, h2.1, h1.2, h2.2, by decide, by decide⟩
 
-/-- the full statement: `allows` itself, unions included.  Proved in the regular setting
-(`constraint_beq_interchangeable_regular`); not proved outside it: congruence of the `excludes_single_version`
-computation, i.e. of `VersionRange().difference(union)`, in the bounds, for unions that are not well-formed or whose
-bounds share a release without being equal -/
+/-- **outside the regular setting, the branch that does not go through the members**: `VersionUnion.allows` answers
+`not (excluded == version)` when the union excludes a single LOCAL build.  On the shape the parser gives `!=V`
+(`<V || >V`), for EVERY `V` — local builds, pre/post/dev releases — and every probe: `_inverted` is computed
+symbolically (`inverted_neShape`), and two equal such constraints admit the same versions. -/
+theorem constraint_beq_interchangeable_ne (x x' y y' : Version) (hx : x.wf = true) (hx' : x'.wf = true)
+    (hy : y.wf = true) (hy' : y'.wf = true) (h1 : Version.eqv x x' = true) (h2 : Version.eqv y y' = true)
+    (h : Marker.VC.eqv (.union (neShape x x')) (.union (neShape y y')) = true) (v : Version) :
+    VC.allows (.union (neShape x x')) v = VC.allows (.union (neShape y y')) v :=
+  neShape_allows_congr x x' y y' hx hx' hy hy' h1 h2 h v
+
+/-- `!=1.0+local` is that shape, its excluded version is local, and `!=1.0.0+LOCAL` is an equal, different object -/
+example : let V := Version.mk' 0 [1, 0] none none none (some ["local"])
+    VParser.parseConstraint "!=1.0+local" = .ok (.union (neShape V V)) ∧ V.isLocal = true ∧
+    (∃ W, VParser.parseConstraint "!=1.0.0+LOCAL" = .ok (.union (neShape W W)) ∧ W ≠ V ∧
+      Marker.VC.eqv (.union (neShape V V)) (.union (neShape W W)) = true) := by
+  intro V
+  refine ⟨by decide +kernel, by decide, ⟨{ Version.mk' 0 [1, 0, 0] none none none (some ["local"]) with text := "1.0.0+LOCAL" }, by decide +kernel, by decide, by decide⟩⟩
+
+/-- the full statement: `allows` itself, unions included.  Exact boundary of what is proved: every pair of non-unions
+(`constraint_beq_interchangeable_partial`, any bounds, any probe); unions member by member (same theorem); unions through
+`allows` in the regular setting (`constraint_beq_interchangeable_regular`: well-formed, bounds mutually regular and not
+local — all decidable, `RegB.of_check`); `!=V` for every `V` (`constraint_beq_interchangeable_ne`).  Not proved: unions
+other than `!=V` that have a local build among their bounds or two bounds of one release that are not equal — there
+`allows` runs `VersionRange().difference(union)` and its congruence in the bounds is open.  No counterexample: 33 000
+equal pairs of re-spelled constraints (10 500 unions with bounds such as `1.0+local` / `1.0.0+LOCAL`, `1.0.post1+x`,
+`1.0a1+z`) evaluated on the real code on 29 probes agree, as do the pools of the check. -/
 def constraint_interchangeable_full_statement : Prop :=
   ∀ a b : VC, vcNonDegenerate a = true → vcNonDegenerate b = true → a.wfB → b.wfB → Marker.VC.eqv a b = true →
     ∀ v, a.allows v = b.allows v
